@@ -107,6 +107,12 @@ impl Runtime {
             return false;
         }
         let line = Line::new(string);
+        if !line.is_direct() && line.to_string().len() > MAX_LINE_LEN {
+            // LIST, the line editor and SAVE hand back the listed form,
+            // which can be longer than what was typed. It has to fit too.
+            self.state = State::RuntimeError(error!(LineBufferOverflow));
+            return false;
+        }
         if line.is_direct() {
             if line.is_empty() {
                 false
